@@ -1077,10 +1077,26 @@ fn gen_case(seed: u64, shard: u64, idx: u64) -> Case {
             pool[ai].clone()
         };
         used[ai] = true;
-        ops.push(match rng.below(3) {
-            0 => Op::Uc(app),
-            1 => Op::Ping(app),
-            _ => Op::Event(app, gen_event(rng, &mut esc)),
+        // now and then repeat an earlier event of this app verbatim (e.g. a retried download
+        // reports the same event twice): both must be sent, in insertion order
+        let dup: Option<Op> = if rng.chance(1, 4) {
+            let prev: Vec<&Op> = ops.iter().filter(|o| matches!(o, Op::Event(a, _) if a.id == app.id)).collect();
+            if prev.is_empty() {
+                None
+            } else {
+                match prev[rng.usize(prev.len())] {
+                    Op::Event(_, e) => Some(Op::Event(app.clone(), e.clone())),
+                    _ => None,
+                }
+            }
+        } else {
+            None
+        };
+        ops.push(match (dup, rng.below(3)) {
+            (Some(d), _) => d,
+            (None, 0) => Op::Uc(app),
+            (None, 1) => Op::Ping(app),
+            (None, _) => Op::Event(app, gen_event(rng, &mut esc)),
         });
         if kind != Kind::BadUrl && n + 1 < nops && rng.chance(1, 6) {
             ops.push(Op::Build);
